@@ -30,8 +30,29 @@ Proof. unfold model_run, spec_run, shape_elements. apply tree_cursor. reflexivit
 Lemma treeset_main t cs : model_run (KTreeSet t) cs = map MOut (spec_run (indexed (map fst (elements t))) cs).
 Proof. unfold model_run, spec_run, shape_elements. apply treeset_cursor. split; reflexivity. Qed.
 
+(* B-tree iterator: every well-formed tree (BTreeShape.b_ok: node shapes, depth below the fuel, in-order keys
+   strictly ascending) and EVERY command word *)
+From VF Require Import C14.BTreeShape C14.ProofsBTreeBase C14.ProofsBTree.
+Lemma btree_main r cs : b_ok depth_fuel r = true ->
+  model_run (KBTree r) cs = map MOut (spec_run (b_elements depth_fuel r) cs).
+Proof.
+  intros H. destruct (b_ok_good _ _ H) as (G & D & E).
+  unfold model_run, spec_run, shape_elements. rewrite E.
+  set (F := Nat.max (S (length (elems r))) depth_fuel).
+  assert (HF : (b_depth r <= S F)%nat) by (subst F; generalize dependent depth_fuel; intros; lia).
+  assert (HF2 : (S (length (elems r)) <= F)%nat) by (subst F; generalize depth_fuel; intros; lia).
+  clearbody F.
+  rewrite (run_ext (bstep F r) (bstep' r F)) by (intros; apply bstep_mirror; exact HF).
+  apply btree_cursor'; [exact G|exact HF2|reflexivity].
+Qed.
+
 (* Each (Next until false from before-first) visits exactly the reported sequence *)
-Lemma each_main k : (match k with KHeap _ | KBTree _ => False | KLinkedKV ks vs => length ks = length vs | _ => True end) ->
+Lemma each_main k :
+  (match k with
+   | KHeap _ => False
+   | KBTree r => b_ok depth_fuel r = true
+   | KLinkedKV ks vs => length ks = length vs
+   | _ => True end) ->
   model_each k = shape_elements k.
 Proof.
   intros H. unfold model_each. destruct k as [vals|arr|b vals|ks vs|t|t|r]; try contradiction.
@@ -40,6 +61,7 @@ Proof.
   - rewrite linkedkv_main by exact H. apply spec_each.
   - rewrite tree_main. apply spec_each.
   - rewrite treeset_main. apply spec_each.
+  - rewrite btree_main by exact H. (change (shape_elements (KBTree r)) with (b_elements depth_fuel r); generalize (b_elements depth_fuel r); intros l; apply spec_each).
 Qed.
 
 (* moving past either end is idempotent *)
